@@ -17,6 +17,31 @@ def rapid(name, test, quick, thorough, **kw):
     return d
 
 CHECKS = {
+    "C11": {
+        "level": "exploration",
+        "phases": [
+            rapid("prop", "TestProp",
+                  {"checks": 600, "shards": 12, "timeout": 400},
+                  {"checks": 10000, "shards": 16, "timeout": 2400}),
+        ],
+    },
+    "C16": {
+        "level": "exploration",
+        "exhaustive_phases": ["matrix"],
+        "phases": [
+            plain("matrix", "TestMatrix",
+                  {"shards": 12, "timeout": 400},
+                  {"shards": 16, "timeout": 1800}),
+        ],
+    },
+    "C10": {
+        "level": "exploration",
+        "phases": [
+            rapid("prop", "TestProp",
+                  {"checks": 600, "shards": 12, "timeout": 400},
+                  {"checks": 10000, "shards": 16, "timeout": 2400}),
+        ],
+    },
     "C08": {
         "level": "exploration",
         "phases": [
